@@ -226,6 +226,16 @@ pub fn populate(f: &mut Fmt, recipe: Recipe, rng: &mut Rng) {
     if recipe == Recipe::Rich && (!fat16_root || root_room(f) >= 10) {
         f.add_label(0, b"VERIFLABEL ");
         f.add_deleted(0, &name11("GONE.TXT"));
+        // what a driver that knows nothing of long names leaves behind when it deletes a file:
+        // the long-name fragments still live, the short entry gone
+        {
+            let short = name11("OLDLFN~1.TXT");
+            let long: Vec<u16> = "Old long file name.txt".encode_utf16().collect();
+            for s in crate::mkfs::lfn_slots(&long, &short) {
+                f.put_slot(0, &s, Alloc::Seq);
+            }
+            f.add_deleted(0, &short);
+        }
         let t = next_tag();
         f.add_file(0, &name11("RO.DAT"), 0x21, &payload(t, 0, 700), Alloc::Seq);
         let t = next_tag();
